@@ -310,7 +310,7 @@ end
 theorem build_stages (roots : List DT) (rootFile : Bytes) (banned : List Kind)
     (content : Bytes → Bytes) (b : Built) (h : build roots rootFile banned content = .ok b) :
     ∃ ms dirs fuel ps tags enums s, collectMacro roots [] [] = .ok (ms, dirs) ∧ pasteList ms fuel dirs {} = .ok ps ∧
-      b.expanded = ps.ctx.forest ∧
+      b.expanded = ps.ctx.forest ∧ collectTags b.expanded [] = .ok tags ∧
       addList content b.expanded [] b.expanded [] { cat := { tags := tags, enums := enums }, banned := banned } = .ok s ∧
       b.cat = s.cat := by
   unfold build at h
@@ -330,6 +330,6 @@ theorem build_stages (roots : List DT) (rootFile : Bytes) (banned : List Kind)
         repeat' split at h
         all_goals first | (cases h; done) | skip
         all_goals (cases h)
-        all_goals exact ⟨ms, dirs, _, ps, _, _, _, rfl, hp, rfl, by assumption, rfl⟩
+        all_goals exact ⟨ms, dirs, _, ps, _, _, _, rfl, hp, rfl, by assumption, by assumption, rfl⟩
 
 end JsightVerif.Model.Build
